@@ -154,6 +154,23 @@ def main(seed=0):
            c13.check_iter([[(1, 'n')]], [(11, 500001), (0, 0)], 480) is not None)
     expect('C13 driver accepts the right time',
            c13.check_iter([[(1, 'n')]], [(11, 500000), (0, 0)], 480) is None)
+    # ---- SaveTargetTrace: a back-patching writer is accepted; an end-relative seek, a corrupted
+    # position and a truncated target are rejected
+    good = [{'a': 'begin', 'p': 4, 'old': 30}, {'a': 'write', 'n': 8, 'p': 12}, {'a': 'tell', 'p': 12}, {'a': 'write', 'n': 5, 'p': 17},
+            {'a': 'seek', 'p': 8}, {'a': 'write', 'n': 4, 'p': 12}, {'a': 'seek', 'p': 17}, {'a': 'write', 'n': 3, 'p': 20}, {'a': 'end', 'p': 20}]
+    bad_seek = copy.deepcopy(good)
+    bad_seek[6] = {'a': 'seek', 'p': 30}          # "the end" of the target instead of the end of what was written
+    bad_pos = copy.deepcopy(good)
+    bad_pos[3]['p'] = 18                          # a corrupted field
+    bad_trunc = good[:-1] + [{'a': 'truncate', 'p': 20}, {'a': 'end', 'p': 20}]
+    bad_before = copy.deepcopy(good)
+    bad_before[4] = {'a': 'seek', 'p': 0}          # before the position the target was handed over at
+    rej = core.validate_batch(ctx, 'SaveTargetTrace', [good, bad_seek, bad_pos, bad_trunc, bad_before])
+    expect('SaveTargetTrace accepts a writer that goes back to fill in a length', 0 not in [r[0] for r in rej])
+    expect('SaveTargetTrace rejects a seek to the end of the target', (1, 7) in rej)
+    expect('SaveTargetTrace rejects a corrupted position', (2, 4) in rej)
+    expect('SaveTargetTrace rejects truncating the target', 3 in [r[0] for r in rej])
+    expect('SaveTargetTrace rejects a seek before the start', (4, 5) in rej)
     # ---- interpreter variants: an unmodified child reports nothing, a sabotaged decoder is reported
     import os
     from . import variants
